@@ -17,71 +17,84 @@ use soroban_token_sdk::metadata::TokenMetadata;
 
 const TOKEN_WASM: &[u8] = include_bytes!("/repo/contracts/interchain-token-service/tests/testdata/interchain_token.wasm");
 
-/// third-party token with arbitrary metadata (decimals may exceed 255), balances and authorised transfers
-#[contract]
-pub struct CustomToken;
-#[contractimpl]
-impl CustomToken {
-    pub fn __constructor(env: Env, name: SString, symbol: SString, decimals: u32) {
-        env.storage().instance().set(&symbol_short!("name"), &name);
-        env.storage().instance().set(&symbol_short!("symbol"), &symbol);
-        env.storage().instance().set(&symbol_short!("decimals"), &decimals);
-    }
-    pub fn name(env: Env) -> SString {
-        env.storage().instance().get(&symbol_short!("name")).unwrap()
-    }
-    pub fn symbol(env: Env) -> SString {
-        env.storage().instance().get(&symbol_short!("symbol")).unwrap()
-    }
-    pub fn decimals(env: Env) -> u32 {
-        env.storage().instance().get(&symbol_short!("decimals")).unwrap()
-    }
-    pub fn balance(env: Env, id: Address) -> i128 {
-        env.storage().persistent().get(&id).unwrap_or(0)
-    }
-    pub fn mint(env: Env, to: Address, amount: i128) {
-        let b: i128 = env.storage().persistent().get(&to).unwrap_or(0);
-        env.storage().persistent().set(&to, &(b + amount));
-    }
-    pub fn transfer(env: Env, from: Address, to: Address, amount: i128) {
-        from.require_auth();
-        if amount < 0 {
-            panic!("negative amount");
+pub mod custom {
+    use soroban_sdk::{contract, contractimpl, symbol_short, Address, Bytes, BytesN, Env, String as SString};
+    /// third-party token with arbitrary metadata (decimals may exceed 255), balances and authorised transfers
+    #[contract]
+    pub struct CustomToken;
+    #[contractimpl]
+    impl CustomToken {
+        pub fn __constructor(env: Env, name: SString, symbol: SString, decimals: u32) {
+            env.storage().instance().set(&symbol_short!("name"), &name);
+            env.storage().instance().set(&symbol_short!("symbol"), &symbol);
+            env.storage().instance().set(&symbol_short!("decimals"), &decimals);
         }
-        let fb: i128 = env.storage().persistent().get(&from).unwrap_or(0);
-        if fb < amount {
-            panic!("insufficient balance");
+        pub fn name(env: Env) -> SString {
+            env.storage().instance().get(&symbol_short!("name")).unwrap()
         }
-        env.storage().persistent().set(&from, &(fb - amount));
-        let tb: i128 = env.storage().persistent().get(&to).unwrap_or(0);
-        env.storage().persistent().set(&to, &(tb + amount));
+        pub fn symbol(env: Env) -> SString {
+            env.storage().instance().get(&symbol_short!("symbol")).unwrap()
+        }
+        pub fn decimals(env: Env) -> u32 {
+            env.storage().instance().get(&symbol_short!("decimals")).unwrap()
+        }
+        pub fn balance(env: Env, id: Address) -> i128 {
+            env.storage().persistent().get(&id).unwrap_or(0)
+        }
+        pub fn mint(env: Env, to: Address, amount: i128) {
+            let b: i128 = env.storage().persistent().get(&to).unwrap_or(0);
+            env.storage().persistent().set(&to, &(b + amount));
+        }
+        pub fn transfer(env: Env, from: Address, to: Address, amount: i128) {
+            from.require_auth();
+            if amount < 0 {
+                panic!("negative amount");
+            }
+            let fb: i128 = env.storage().persistent().get(&from).unwrap_or(0);
+            if fb < amount {
+                panic!("insufficient balance");
+            }
+            env.storage().persistent().set(&from, &(fb - amount));
+            let tb: i128 = env.storage().persistent().get(&to).unwrap_or(0);
+            env.storage().persistent().set(&to, &(tb + amount));
+        }
     }
-}
 
-/// recipient application for transfers with data
-#[contract]
-pub struct RecvApp;
-#[contractimpl]
-impl InterchainTokenExecutableInterface for RecvApp {
-    fn interchain_token_service(env: &Env) -> Address {
-        env.storage().instance().get(&symbol_short!("its")).unwrap()
-    }
-    fn execute_with_interchain_token(env: &Env, _source_chain: SString, _message_id: SString, _source_address: Bytes, payload: Bytes, _token_id: BytesN<32>, _token_address: Address, amount: i128) {
-        Self::validate(env);
-        let n: u32 = env.storage().instance().get(&symbol_short!("count")).unwrap_or(0);
-        env.storage().instance().set(&symbol_short!("count"), &(n + 1));
-        env.storage().instance().set(&symbol_short!("last"), &(payload, amount));
-    }
+
 }
-#[contractimpl]
-impl RecvApp {
-    pub fn __constructor(env: Env, its: Address) {
-        env.storage().instance().set(&symbol_short!("its"), &its);
+pub use custom::{CustomToken, CustomTokenClient};
+
+pub mod recv {
+    use soroban_sdk::{contract, contractimpl, symbol_short, Address, Bytes, BytesN, Env, String as SString};
+    use interchain_token_service::executable::InterchainTokenExecutableInterface;
+    /// recipient application for transfers with data
+    #[contract]
+    pub struct RecvApp;
+    #[contractimpl]
+    impl InterchainTokenExecutableInterface for RecvApp {
+        fn interchain_token_service(env: &Env) -> Address {
+            env.storage().instance().get(&symbol_short!("its")).unwrap()
+        }
+        fn execute_with_interchain_token(env: &Env, _source_chain: SString, _message_id: SString, _source_address: Bytes, payload: Bytes, _token_id: BytesN<32>, _token_address: Address, amount: i128) {
+            Self::validate(env);
+            let n: u32 = env.storage().instance().get(&symbol_short!("count")).unwrap_or(0);
+            env.storage().instance().set(&symbol_short!("count"), &(n + 1));
+            env.storage().instance().set(&symbol_short!("last"), &(payload, amount));
+        }
     }
-    pub fn count(env: Env) -> u32 {
-        env.storage().instance().get(&symbol_short!("count")).unwrap_or(0)
+    #[contractimpl]
+    impl RecvApp {
+        pub fn __constructor(env: Env, its: Address) {
+            env.storage().instance().set(&symbol_short!("its"), &its);
+        }
+        pub fn count(env: Env) -> u32 {
+            env.storage().instance().get(&symbol_short!("count")).unwrap_or(0)
+        }
     }
+
+
 }
+pub use recv::{RecvApp, RecvAppClient};
 
 fn source_const(name: &str) -> String {
     // constants the model depends on are extracted from the source text on every run
